@@ -14,6 +14,24 @@ def rfc4034_keytag(rdata):
     return ac & 0xffff
 
 
+def steer_carry(rd, want):
+    """RDATA of even length whose last 16-bit word is changed so that (sum & 0xffff) + (sum >> 16) == want: the place
+    where adding the carry overflows 16 bits again (RFC 4034 Appendix B discards that second carry; an Internet-checksum
+    style fold does not)."""
+    rd = bytearray(rd)
+    if len(rd) % 2 or len(rd) < 6:
+        return None
+    for _ in range(4):
+        s = sum(b if i & 1 else b << 8 for i, b in enumerate(rd))
+        cur = (s & 0xffff) + (s >> 16)
+        if cur == want:
+            return bytes(rd)
+        w = (rd[-2] << 8) | rd[-1]
+        w2 = (w + want - cur) % 0x10000
+        rd[-2], rd[-1] = w2 >> 8, w2 & 0xff
+    return None
+
+
 def rnd_label(rng):
     n = rng.choice([1, 2, 3, 7, 20, 63])
     return bytes(rng.choice(b'abcdefghijklmnopqrstuvwxyz0123456789') for _ in range(n))
@@ -77,6 +95,10 @@ def run(chk):
         for l, o in zip(lines, impl_out):
             if l.startswith('dnskeyrsaenc') and o.startswith('OK '):
                 tag_lines.append('keytag ' + o[3:])
+                for want in (0xffff, 0x10000, 0x10001, 0x10000 + rng.randrange(0, 16)):
+                    st = steer_carry(bytes.fromhex(o[3:]), want)
+                    if st is not None:
+                        tag_lines.append('keytag ' + st.hex())
         mt = common.run_model(tag_lines)
         nv = 0
         for l, m in zip(tag_lines, mt):
@@ -100,7 +122,8 @@ def run(chk):
     chk.coverage['rule'] = ('DS, MX, names, TXT, RRSIG (incl. private RR types and the full 32-bit timestamp range) and RSA DNSKEY records (1- and '
                             '3-byte exponent length forms, moduli of 64-256 bytes, all flag combinations) composed by the implementation from '
                             'field values and compared with the RFC encodings of the Coq specification; the key tag of every composed DNSKEY '
-                            'compared three ways (implementation, Coq model of key_tag, RFC 4034 Appendix B), RDATA of odd and even length; '
+                            'compared three ways (implementation, Coq model of key_tag, RFC 4034 Appendix B), RDATA of odd and even length, and RDATA '
+                            'steered so that adding the carry just does / just does not overflow 16 bits again; '
                             'non-trivial = distinct records both sides encode')
     for i in range(0, len(lines), max(1, len(lines) // 8)):
         chk.sample({'cmd': lines[i][:140], 'outcome': impl_out[i][:100]})
